@@ -397,7 +397,71 @@ def run(sess: Session):
                         'scan_lexicons == load only by the bounded fault sweep')
 
 
+def normalize_space_bounded(sess: Session):
+    """wn.lmf._normalize_space (the str_wsnorm of the contracts) against its definition: runs of XML white space
+    (#x20 #x9 #xD #xA) become one space, leading and trailing ones are removed, every other character - including
+    the other Unicode space characters - is kept."""
+    import itertools
+    import re
+    fn = getattr(lmf, '_normalize_space', None)
+    # (1) through the real loader, whatever the normalisation is called: a definition text of <= 2 characters of the
+    # alphabet between two letters, written into a document and read back
+    import os
+    import tempfile
+    from xml.sax.saxutils import escape
+    doc_alphabet = ['a', ' ', '\t', '\n', '\u00a0', '\u3000', '\u2003', '\u2028', '\u0085', 'é']
+    head = ('<?xml version="1.0" encoding="UTF-8"?>\n<!DOCTYPE LexicalResource SYSTEM '
+            '"http://globalwordnet.github.io/schemas/WN-LMF-1.0.dtd">\n<LexicalResource '
+            'xmlns:dc="http://purl.org/dc/elements/1.1/">\n<Lexicon id="n" label="n" language="en" email="e" '
+            'license="l" version="1">\n')
+    texts = [''.join(c) for k in range(0, 3) for c in itertools.product(doc_alphabet, repeat=k)]
+    body = ''.join(f'<Synset id="n-{i}" ili="" partOfSpeech="n"><Definition>x{escape(t)}y{escape(t)}</Definition>'
+                   f'</Synset>\n' for i, t in enumerate(texts))
+    tmp = tempfile.mkdtemp(prefix='wnws')
+    doc_bad, doc_cases = [], 0
+    try:
+        path = os.path.join(tmp, 'ws.xml')
+        open(path, 'w', encoding='utf-8').write(head + body + '</Lexicon>\n</LexicalResource>\n')
+        res = lmf.load(path, progress_handler=None)
+        for t, ss in zip(texts, res['lexicons'][0]['synsets']):
+            doc_cases += 1
+            want = re.sub(r'[ \t\r\n]+', ' ', f'x{t}y{t}').strip(' ')
+            got = ss['definitions'][0]['text']
+            if got != want:
+                doc_bad.append({'text': f'x{t}y{t}', 'loaded': got, 'expected': want})
+    finally:
+        import shutil
+        shutil.rmtree(tmp, ignore_errors=True)
+    sess.add_bounded('wn.lmf.load (white space in text content)', f'{doc_cases} definitions x<t>y<t> with t of <= 2 '
+                     f'characters over {len(doc_alphabet)} characters', doc_cases, 'real loader against the definition',
+                     not doc_bad)
+    if doc_bad:
+        sess.violation_direct('wn.lmf.load:text-white-space', 'text content is altered beyond the collapsing of XML white '
+                              'space', {'witness': repr(doc_bad[0]), 'cases': len(doc_bad)}, True,
+                              functions=('wn.lmf._make_parser',))
+    if fn is None:
+        return
+    alphabet = ['a', ' ', '\t', '\n', '\r', '\u00a0', '\u3000', '\u2003', '\u2028', '\x0b', '\x0c', '\u0085', 'é']
+    cases, bad = 0, []
+    for n in range(0, 5):
+        for combo in itertools.product(alphabet, repeat=n):
+            text = ''.join(combo)
+            want = re.sub(r'[ \t\r\n]+', ' ', text).strip(' ')
+            cases += 1
+            got = fn(text)
+            if got != want:
+                bad.append({'text': text, 'got': got, 'want': want})
+    sess.add_bounded('wn.lmf._normalize_space', f'every string of <= 4 characters over {len(alphabet)} characters (XML '
+                     'white space, other Unicode spaces and separators, letters)', cases, 'comparison with the '
+                     'definition', not bad)
+    if bad:
+        sess.violation_direct('wn.lmf._normalize_space:definition', 'text normalisation alters characters other than XML '
+                              'white space (or keeps XML white space)', {'witness': repr(bad[0])}, True,
+                              functions=('wn.lmf._normalize_space',))
+
+
 def bounded(sess: Session):
+    normalize_space_bounded(sess)
     from bounded import lmf_faults as F
     out = F.sweep()
     bad = [r for r in out if r[4]]
